@@ -79,6 +79,31 @@ def rule_a(ctx, ix):
                         ok = ok or _c.equivalent(_c.formula(n_.test), want_)
                     except ValueError:
                         pass
+        if not ok:
+            # whichever way the loop is written (skip with continue, or the body under the positive test): a component is
+            # written exactly when no list was given or it is in the list - read off the condition of the writing statement
+            from .. import cond as _c
+            from ..util import parent_map as _pmap
+            pm_ = _pmap(f.node)
+            for n_ in ast.walk(lp):
+                is_sink = (isinstance(n_, ast.Assign) and isinstance(n_.targets[0], ast.Subscript) and unparse(n_.targets[0].slice) == '%s.label' % cid) or \
+                    (isinstance(n_, ast.Expr) and isinstance(n_.value, ast.Call) and call_name(n_.value) in SINKS)
+                if not is_sink:
+                    for c_ in (ast.walk(n_) if isinstance(n_, ast.stmt) and not isinstance(n_, (ast.For, ast.If, ast.While, ast.With, ast.Try)) else ()):
+                        if isinstance(c_, ast.Call) and call_name(c_) in SINKS and '%s.label' % cid in [unparse(a) for a in c_.args] + [unparse(k.value) for k in c_.keywords]:
+                            is_sink = True
+                if not is_sink or not isinstance(n_, ast.stmt):
+                    continue
+                pc_ = _c.path_condition(f.node, n_, expand=False) or ('const', True)
+                lst = sorted({a_.split('|')[2] for a_ in _c.atoms(pc_) if a_.startswith('in|%s|' % cid)})
+                if len(lst) != 1:
+                    continue
+                keep = {'is|None|%s' % lst[0], 'in|%s|%s' % (cid, lst[0])}
+                try:
+                    r_ = _c.restrict(pc_, lambda a: a in keep)
+                    ok = ok or _c.equivalent(r_, _c.Or(_c.T('is|None|%s' % lst[0]), _c.T('in|%s|%s' % (cid, lst[0]))))
+                except ValueError:
+                    pass
         ctx.ob(R, f.construct + ' filter', 'a component is skipped only when a component list was given and it is not in it', ok,
                detail='%s filters the exported components with `%s`' % (f.construct, unparse(flt[0].test) if flt else None), where=where(f, lp))
         # written under its label
